@@ -7,6 +7,7 @@ import os, re, subprocess, tempfile, time, multiprocessing as mp
 
 Z3_TIMEOUT_MS = int(os.environ.get('PYVC_Z3_MS', '20000'))
 CVC5_TIMEOUT_MS = int(os.environ.get('PYVC_CVC5_MS', '20000'))
+Z3_FIRST_MS = int(os.environ.get('PYVC_Z3_FIRST_MS', '6000'))
 CVC5 = '/usr/bin/cvc5'
 
 
@@ -95,22 +96,28 @@ def solve_one(job):
     import z3
     t0 = time.time()
     res = {'idx': idx, 'name': name, 'verdict': 'unknown', 'backend': None, 'model': None, 'detail': ''}
-    try:
-        s = z3.Solver()
-        s.set('timeout', int(Z3_TIMEOUT_MS * (4 if tier == 'thorough' else 1) * lf))
-        s.from_string(smt2)
-        r = s.check()
-        res['z3'] = str(r)
-        res['z3_s'] = round(time.time() - t0, 3)
-        if r == z3.unsat:
-            res.update(verdict='unsat', backend='z3')
-        elif r == z3.sat:
-            res.update(verdict='sat', backend='z3', model=_model_to_py(s.model()))
-        else:
-            res['detail'] = 'z3: ' + s.reason_unknown()
-    except Exception as e:       # solver crash: treat as unknown, never as a verdict
-        res['detail'] = 'z3 exception: %r' % (e,)
-        res['z3'] = 'error'
+    full_ms = int(Z3_TIMEOUT_MS * (4 if tier == 'thorough' else 1) * lf)
+
+    def run_z3(ms):
+        try:
+            s = z3.Solver()
+            s.set('timeout', ms)
+            s.from_string(smt2)
+            r = s.check()
+            res['z3'] = str(r)
+            res['z3_s'] = round(time.time() - t0, 3)
+            if r == z3.unsat:
+                res.update(verdict='unsat', backend='z3')
+            elif r == z3.sat:
+                res.update(verdict='sat', backend='z3', model=_model_to_py(s.model()))
+            else:
+                res['detail'] = 'z3: ' + s.reason_unknown()
+        except Exception as e:       # solver crash: treat as unknown, never as a verdict
+            res['detail'] = 'z3 exception: %r' % (e,)
+            res['z3'] = 'error'
+    # portfolio order: z3 with a short budget (decides almost everything in milliseconds), then cvc5 with its full budget (it
+    # takes the sequence queries z3 leaves open), then z3 again with the full budget
+    run_z3(min(full_ms, int(Z3_FIRST_MS * lf)))
     if res['verdict'] == 'unknown' or (tier == 'thorough' and res['verdict'] == 'unsat' and os.environ.get('PYVC_BOTH') == '1'):
         t1 = time.time()
         v, detail = run_cvc5(smt2, int(CVC5_TIMEOUT_MS * (4 if tier == 'thorough' else 1) * lf))
@@ -122,6 +129,8 @@ def solve_one(job):
             elif v == 'sat':
                 res.update(verdict='sat', backend='cvc5')   # no model extraction from the CLI; replay uses search
             res['detail'] += ' | cvc5: ' + detail[:200]
+            if res['verdict'] == 'unknown' and int(Z3_FIRST_MS * lf) < full_ms:
+                run_z3(full_ms)
         elif v == 'sat':
             res.update(verdict='disagree', detail='z3 unsat / cvc5 sat')
         elif v == 'unsat':
